@@ -145,9 +145,17 @@ def region (i : Input) : String :=
 def JsonIn.asName : JsonIn → Option Name
   | .str s => some s
   | _ => none
+/-- the text a driver.Value carries: as bytes or as a string.  The property demands
+    decode(encode(c)) == c for -sql as well, and encode (`Value()`) produces a string -/
 def SqlIn.asName : SqlIn → Option Name
   | .bytes s => some s
+  | .str s => some s
   | .other => none
+
+/-- `Scan` only accepts `[]byte`: the string that the enum's own `Value()` returns is refused, so the
+    SQL pair does not round-trip through the driver.Value it produces ⇒ `F_sql_value_string` (every
+    -sql enum; observed in a case of its own: Scan(Value(c)) for every declared c, Scan(string)) -/
+def F_sql_value_string (sql : Bool) : Bool := sql
 
 /-- decode: a declared (trimmed) name yields its constant; anything else is an error and the
     target keeps its value.  (ok?, target afterwards) -/
@@ -274,6 +282,8 @@ int32, uint32).  The classes are those of C04 / C14, read off what the generator
 * `-gorm` without `-sql` is a usage error ⇒ `Out`; a malformed case or a run that writes nothing
   (no selected type has a constant) ⇒ `Out`;
 * `-bit` ⇒ `F_enumBitMap` (undefined `_<t>_map`);
+* an identifier of the input package that collides with a name the template introduces (an import
+  name such as `fmt` / `json`, a listed constant `x`, a one-letter lower-case type) ⇒ `F_enumIdentClash`;
 * a table naming a function-local constant or a constant of another type (a spec with a
   non-identifier type, see C04) ⇒ `F_enumForeignConst`;
 * two constants with the same value or the same trimmed name ⇒ `F_enumDupKey` (duplicate map keys);
@@ -282,8 +292,12 @@ int32, uint32).  The classes are those of C04 / C14, read off what the generator
 
 structure PkgCase where
   bit : Bool
+  json : Bool := false
+  text : Bool := false
   sql : Bool
   gorm : Bool
+  /-- every package-level identifier of the input package (constants of any type, types, funcs, vars) -/
+  idents : List Name := []
   /-- the types the run generates for, with their kinds -/
   types : List (Name × Kind)
   /-- package-level const blocks, and those inside function bodies -/
@@ -293,6 +307,23 @@ structure PkgCase where
 
 def PkgCase.tablesOf (p : PkgCase) : List (Name × List Const) :=
   (p.types.map (fun t => (t.1, sortC t.2 (collect t.1 (p.blocks ++ p.locals))))).filter (fun e => !e.2.isEmpty)
+
+/-- the package names the emitted file imports under the given flags (`fmt` always: String() calls
+    fmt.Sprintf).  A package-level identifier of the same name anywhere in the input package either
+    collides with the import ("already declared through import of package") or, for the packages
+    goimports adds, makes `fmt.Sprintf` / `errors.New` / `bytes.Buffer` resolve to that identifier. -/
+def importNames (p : PkgCase) : List Name :=
+  ["fmt".toList] ++ (if p.json then ["json".toList] else []) ++ (if p.sql then ["driver".toList, "errors".toList] else [])
+    ++ (if p.json || p.text || p.sql then ["shoot".toList] else []) ++ (if p.bit then ["bytes".toList] else [])
+    ++ (if p.gorm then ["gorm".toList, "schema".toList] else [])
+
+/-- identifiers of the input that collide with names the template introduces: an import name; a
+    listed constant called `x` (the guard function declares `var x [1]struct{}` and then reads
+    `x[x-1]`); a type whose name is one lower-case letter (the receiver `func (x x) …` hides it) -/
+def PkgCase.hasClash (p : PkgCase) : Bool :=
+  p.idents.any (fun n => (importNames p).contains n) ||
+    p.tablesOf.any (fun e => e.2.any (fun c => c.name == ['x']) ||
+      (match e.1 with | [ch] => ch.isLower | _ => false))
 
 /-- some table names a constant that is not a package-level constant of the type -/
 def PkgCase.hasForeign (p : PkgCase) : Bool :=
@@ -304,6 +335,7 @@ def PkgCase.hasDup (p : PkgCase) : Bool :=
 def c01Region (p : PkgCase) : String :=
   if !p.wellFormed || (p.gorm && !p.sql) || p.tablesOf.isEmpty then "Out"
   else if p.bit then "F_enumBitMap"
+  else if p.hasClash then "F_enumIdentClash"
   else if p.hasForeign then "F_enumForeignConst"
   else if p.hasDup then "F_enumDupKey"
   else "WF"
@@ -311,6 +343,7 @@ def c01Region (p : PkgCase) : String :=
 /-- what the model of the generator predicts for the run: (exit code, something written, compiles) -/
 def c01Model (p : PkgCase) : Nat × Bool × Bool :=
   if p.gorm && !p.sql then (1, false, false)
-  else (0, !p.tablesOf.isEmpty, p.tablesOf.all (fun e => compiles p.bit e.1 (declared e.1 p.blocks) e.2))
+  else (0, !p.tablesOf.isEmpty,
+        (!p.hasClash || p.tablesOf.isEmpty) && p.tablesOf.all (fun e => compiles p.bit e.1 (declared e.1 p.blocks) e.2))
 
 end ShootVerif.Enum
